@@ -31,8 +31,8 @@ Decorations(b) ==
   {Mask(b, m) : m \in 0..3}
   \cup {Insert(Mask(b, m), p, r) : m \in 0..3, p \in 0..n, r \in Runs}
   \cup {Insert(Insert(Mask(b, m), q, r2), p, r1) : m \in {0, 3}, p \in 0..n, q \in 0..n, r1 \in Runs, r2 \in Runs}
-\* negatives: a significant character ('_' '.' tab '0' 'x') inserted; one character deleted; one substituted
-Junk == {95, 46, 9, 48, 120}
+\* negatives: a significant character ('_' '.' '0' 'x' and control characters) inserted; one deleted; one substituted
+Junk == {95, 46, 9, 48, 120, 13, 10, 17, 28, 1}   \* _ . TAB 0 x CR LF DC1 FS SOH
 Negatives(b) ==
   LET n == Len(b) IN
   {Insert(b, p, <<j>>) : p \in 0..n, j \in Junk}
